@@ -22,6 +22,7 @@ import (
 	"strings"
 	"sync"
 
+	"github.com/vedadiyan/genql/compare"
 	"github.com/vedadiyan/sqlparser/v2"
 )
 
@@ -77,8 +78,15 @@ func ToCatalog(rows []any, ident string, identRight string, joinExpr sqlparser.E
 			if err != nil {
 				return nil, err
 			}
+			// numbers are keyed by value, whatever Go type holds them: int(1000000)
+			// prints as 1000000 but float64(1000000) as 1e+06
+			key := reader
+			switch reader.(type) {
+			case int, int8, int16, int32, int64, uint, uint8, uint16, uint32, uint64, float32:
+				key = compare.As[float64](reader)
+			}
 			// length-prefixed, so that ("p-", "q") and ("p", "-q") get different keys
-			value := fmt.Sprintf("%v", reader)
+			value := fmt.Sprintf("%v", key)
 			buffer.WriteString(fmt.Sprintf("%d:%s-", len(value), value))
 			mapper[mappedColumns[column]] = reader
 		}
